@@ -226,7 +226,7 @@ def nontrivial(case):
 
 
 def shards(tier):
-    out = [{'name': 'schedules-%d' % i, 'kind': 'hyp', 'examples': 200 if tier == 'quick' else 6000, 'hypothesis': True}
+    out = [{'name': 'schedules-%d' % i, 'kind': 'hyp', 'examples': 200 if tier == 'quick' else 40000, 'hypothesis': True}
            for i in range(12 if tier == 'quick' else 16)]
     out.append({'name': 'grid', 'kind': 'grid'})
     return out
